@@ -122,3 +122,14 @@ func init() {
 	extFuncs[coreMod+"/consensus.validateV2FileContracts"] = "validateV2FileContracts"
 	tcodeRoots = append(tcodeRoots, "consensus.ValidateV2Transaction", "consensus.validateV2Siacoins", "consensus.validateV2Siafunds")
 }
+
+func init() {
+	// the top of v1 transaction validation, the same way
+	extFuncs[coreMod+"/consensus.validateCurrencyOverflow"] = "validateCurrencyOverflow"
+	extFuncs[coreMod+"/consensus.State.TransactionWeight"] = "TransactionWeight"
+	extFuncs[coreMod+"/consensus.validateMinimumValues"] = "validateMinimumValues"
+	extFuncs[coreMod+"/consensus.validateFileContracts"] = "validateFileContracts"
+	extFuncs[coreMod+"/consensus.validateArbitraryData"] = "validateArbitraryData"
+	extFuncs[coreMod+"/consensus.validateSignatures"] = "validateSignatures"
+	tcodeRoots = append(tcodeRoots, "consensus.ValidateTransaction")
+}
